@@ -134,13 +134,18 @@ class TreeStorage(BaseStorage):
             leaf_reservoir_length (int): Size of the reservoir stored at each leaf node of each feature's incremental
                 decision tree. Defaults to 10.
             grace_period (int): Grace period of the underlying river Hoeffding Adaptive Trees. Defaults to 200.
-            seed (int, optional): Random seed of the underlying river Hoeffding Adaptive Trees. Defaults to None.
+            seed (int, optional): Random seed of the underlying river Hoeffding Adaptive Trees. Defaults to None,
+                in which case it is drawn from Python's global random generator.
         """
         self.feature_names = cat_feature_names + num_feature_names
         self.cat_feature_names = cat_feature_names
         self.num_feature_names = num_feature_names
         self._leaf_reservoir_length = leaf_reservoir_length
         self._seen_samples = 0
+        if seed is None:
+            # derive the learners' seed from the global generator, so that results are reproducible from the
+            # global seeds like everywhere else in the library (river would fall back to OS entropy)
+            seed = random.randrange(2 ** 32)
 
         self._storage_x = {cat_feature: HoeffdingAdaptiveTreeClassifier(
             max_depth=max_depth, leaf_prediction='nba', binary_split=True,
